@@ -279,9 +279,10 @@ func writeQueryFile(dir, name string, decls []string, asserts []string, getValue
 	}
 	b.WriteString("(check-sat)\n")
 	if len(getValues) > 0 {
-		b.WriteString("(get-value (")
-		b.WriteString(strings.Join(getValues, " "))
-		b.WriteString("))\n")
+		// one get-value per term: a term that fails to evaluate does not spoil the rest
+		for _, v := range getValues {
+			b.WriteString("(get-value (" + v + "))\n")
+		}
 	}
 	return p, os.WriteFile(p, []byte(b.String()), 0o644)
 }
